@@ -39,6 +39,7 @@ type apkT struct {
 	Name    string `json:"name"`
 	Version string `json:"version"`
 	Sum     []byte `json:"checksum"`
+	Arch    string `json:"arch,omitempty"` // the A: field of the installed database ("" = the image's architecture); not part of the model: Generate must not look at it
 }
 type pkgT struct {
 	ID      string      `json:"id"`
@@ -190,6 +191,13 @@ func readDoc(p string) (*docT, error) {
 	return fromSPDX(d), nil
 }
 
+func archOr(a, d string) string {
+	if a == "" {
+		return d
+	}
+	return a
+}
+
 func runGenerate(g genIn) (o obsT) {
 	fsys := apkfs.NewMemFS()
 	dir := strings.TrimPrefix(spdx.VerifApkSBOMDir, "/")
@@ -235,7 +243,7 @@ func runGenerate(g genIn) (o obsT) {
 	}
 	for _, a := range g.Apks {
 		opts.Packages = append(opts.Packages, &apk.InstalledPackage{Package: apk.Package{
-			Name: a.Name, Version: a.Version, Checksum: a.Sum, Arch: "x86_64", License: "MIT", Maintainer: "m <m@example.com>"}})
+			Name: a.Name, Version: a.Version, Checksum: a.Sum, Arch: archOr(a.Arch, "x86_64"), License: "MIT", Maintainer: "m <m@example.com>"}})
 	}
 	out := filepath.Join(tmpDir, "out.spdx.json")
 	os.Remove(out)
@@ -425,26 +433,26 @@ func corpusGen(w *gal.Writer) {
 	base := func(apks []apkT, fs []fsEnt) genIn {
 		return genIn{Image: img, Layers: []hashT{l1}, OSVer: "20230201", Apks: apks, FS: fs}
 	}
-	musl := apkT{"musl", "1.2.2-r7", sum(1)}
+	musl := apkT{"musl", "1.2.2-r7", sum(1), ""}
 	// the repository's own fixture shape: one zero-valued layer descriptor, no image digest
 	genCase(w, genIn{Layers: []hashT{{}}, OSVer: "3.0", Apks: []apkT{musl}}, "corpus/no-image-digest", "testOpts of spdx_test.go")
 	genCase(w, genIn{Layers: []hashT{l1, l2}, OSVer: "3.0", Apks: []apkT{musl}}, "corpus/no-image-digest", "two layers, no image digest: describes the last layer")
 	genCase(w, genIn{Image: img, Layers: []hashT{l1, l2, sha(r)}, OSVer: "3.0", VCS: "git+ssh://github.com/distroless/example.git@868f0dc23e721039f9669b56d01ea4b897f2fb24",
-		Apks: []apkT{musl, {"busybox", "1.36.1-r0", sum(2)}}}, "corpus/multi-layer-vcs", "")
+		Apks: []apkT{musl, {"busybox", "1.36.1-r0", sum(2), ""}}}, "corpus/multi-layer-vcs", "")
 	genCase(w, genIn{Image: img, Layers: []hashT{l1}, OSVer: "3.0", VCS: "https://example.com/repo", Apks: nil}, "corpus/empty-installed", "")
 	genCase(w, genIn{Image: img, Layers: nil, OSVer: "3.0", Apks: []apkT{musl}}, "corpus/no-layers", "Layers[0] panics")
 	genCase(w, genIn{Image: img, Layers: []hashT{l1, l1}, OSVer: "3.0", Apks: []apkT{musl}}, "corpus/same-layer-twice", "")
 	// identifier collisions (C11-F1)
-	genCase(w, base([]apkT{{"gtk+", "3.24-r0", sum(3)}, {"gtkC43", "3.24-r0", sum(4)}}, nil), "corpus/id-collision", "gtk+ vs gtkC43: + is rewritten to C43")
-	genCase(w, base([]apkT{{"a:b", "1-r0", sum(3)}, {"a-b", "1-r0", sum(4)}}, nil), "corpus/id-collision", ": is rewritten to -")
-	genCase(w, base([]apkT{{"foo-1", "2-r0", sum(3)}, {"foo", "1-2-r0", sum(4)}}, nil), "corpus/id-collision", "name-version boundary is ambiguous")
-	genCase(w, base([]apkT{{"libstdc++", "13.2-r0", sum(3)}, {"libstdcC43C43", "13.2-r0", sum(4)}, {"zlib", "1.3-r0", sum(5)}}, nil), "corpus/id-collision", "")
+	genCase(w, base([]apkT{{"gtk+", "3.24-r0", sum(3), ""}, {"gtkC43", "3.24-r0", sum(4), ""}}, nil), "corpus/id-collision", "gtk+ vs gtkC43: + is rewritten to C43")
+	genCase(w, base([]apkT{{"a:b", "1-r0", sum(3), ""}, {"a-b", "1-r0", sum(4), ""}}, nil), "corpus/id-collision", ": is rewritten to -")
+	genCase(w, base([]apkT{{"foo-1", "2-r0", sum(3), ""}, {"foo", "1-2-r0", sum(4), ""}}, nil), "corpus/id-collision", "name-version boundary is ambiguous")
+	genCase(w, base([]apkT{{"libstdc++", "13.2-r0", sum(3), ""}, {"libstdcC43C43", "13.2-r0", sum(4), ""}, {"zlib", "1.3-r0", sum(5), ""}}, nil), "corpus/id-collision", "")
 	genCase(w, base([]apkT{musl, musl}, nil), "corpus/same-apk-twice", "identical entries collapse to one element")
-	genCase(w, base([]apkT{{"foo", "1.0-r0", sum(1)}, {"foo", "2.0-r0", sum(2)}, {"foo-doc", "2.0-r0", sum(3)}}, nil), "corpus/same-name-two-versions", "")
-	genCase(w, base([]apkT{{"py3.11-foo_bar", "1.0~rc1-r0", sum(1)}, {"café", "1", sum(2)}, {"", "", nil}, {strings.Repeat("long-name+", 40), "1.0", sum(9)}}, nil), "corpus/odd-names", "")
+	genCase(w, base([]apkT{{"foo", "1.0-r0", sum(1), ""}, {"foo", "2.0-r0", sum(2), ""}, {"foo-doc", "2.0-r0", sum(3), ""}}, nil), "corpus/same-name-two-versions", "")
+	genCase(w, base([]apkT{{"py3.11-foo_bar", "1.0~rc1-r0", sum(1), ""}, {"café", "1", sum(2), ""}, {"", "", nil, ""}, {strings.Repeat("long-name+", 40), "1.0", sum(9), ""}}, nil), "corpus/odd-names", "")
 	// embedded SBOMs
-	foo := apkT{"foo", "1.0-r0", sum(6)}
-	bar := apkT{"bar", "2.0-r1", sum(7)}
+	foo := apkT{"foo", "1.0-r0", sum(6), ""}
+	bar := apkT{"bar", "2.0-r1", sum(7), ""}
 	fooE, barE := mainElem(foo), mainElem(bar)
 	src := pkgT{ID: "SPDXRef-Package-github.com-foo-src", Name: "foo-src", Version: "abc"}
 	fooDoc := &docT{Pkgs: []pkgT{fooE, src}, Desc: []string{fooE.ID},
@@ -482,7 +490,7 @@ func corpusGen(w *gal.Writer) {
 	// two described elements, one of which was already imported (together with another element of that name) through an
 	// earlier apk's SBOM: in the map order fresh-then-reused the first iteration removes the reused element and the second
 	// renames the references to the other earlier element to it (C11-F4)
-	fooDocA := apkT{"foo-doc", "1.0-r0", sum(8)}
+	fooDocA := apkT{"foo-doc", "1.0-r0", sum(8), ""}
 	fooDocE := mainElem(fooDocA)
 	fooUp := pkgT{ID: "SPDXRef-Package-foo-upstream", Name: "foo", Version: "1.0"}
 	genCase(w, base([]apkT{fooDocA, foo}, []fsEnt{
@@ -549,11 +557,11 @@ func randomGen(w *gal.Writer, r *gal.Rand, embedded bool, wild bool) {
 	}
 	seen := map[string]bool{}
 	for i := 0; i < napk; i++ {
-		a := apkT{genName(r), genVersion(r), nil}
+		a := apkT{genName(r), genVersion(r), nil, ""}
 		if wild && r.Chance(1, 4) && len(g.Apks) > 0 {
 			// provoke an identifier collision with an earlier entry
 			b := g.Apks[r.Intn(len(g.Apks))]
-			a = apkT{strings.NewReplacer("+", "C43", ":", "-", "_", "C95").Replace(b.Name), b.Version, nil}
+			a = apkT{strings.NewReplacer("+", "C43", ":", "-", "_", "C95").Replace(b.Name), b.Version, nil, ""}
 		}
 		if seen[a.Name+"\x00"+a.Version] || (embedded && seen[a.Name]) {
 			continue
@@ -563,6 +571,9 @@ func randomGen(w *gal.Writer, r *gal.Rand, embedded bool, wild bool) {
 		a.Sum = make([]byte, 20)
 		for j := range a.Sum {
 			a.Sum[j] = byte(r.Intn(256))
+		}
+		if r.Chance(1, 3) { // architecture-independent and foreign-architecture entries of the installed database
+			a.Arch = gal.Pick(r, []string{"noarch", "aarch64", "all", "riscv64"})
 		}
 		g.Apks = append(g.Apks, a)
 	}
@@ -666,8 +677,8 @@ func randomTwoTargets(w *gal.Writer, r *gal.Rand) {
 	}
 	g.Layers = []hashT{sha(r)}
 	name := gal.Pick(r, []string{"foo", "lib+x", "a_b", "zz"})
-	x := apkT{name, genVersion(r), []byte{1, 2, 3}}
-	xd := apkT{name + "-doc", x.Version, []byte{4, 5, 6}}
+	x := apkT{name, genVersion(r), []byte{1, 2, 3}, ""}
+	xd := apkT{name + "-doc", x.Version, []byte{4, 5, 6}, ""}
 	mk := func(tag string) pkgT {
 		return pkgT{ID: "SPDXRef-Package-" + cleanID(name) + "-" + tag, Name: name, Version: x.Version}
 	}
